@@ -148,6 +148,7 @@ class Stats(object):
         self.solver_time = 0.0
         self.max_query = 0.0
         self.steps = 0
+        self.on_demand = set()
         self.unknown = 0
         self.functions = {}      # qualified name -> file
         self.patterns = set()
@@ -637,6 +638,25 @@ class Interp(object):
         for f in funcs:
             f = getattr(f, "__func__", f)
             self.allow[id(f)] = f
+
+    def allow_on_demand(self, f):
+        """last resort before 'no model': a pure-Python function outside the interpreted roots (stdlib, six) that is called
+        with symbolic data is interpreted from its own source.  Whatever it needs below is subject to the same rules, so a
+        function that depends on C internals still ends the path as unsupported.  Recorded in stats.on_demand."""
+        f = getattr(f, "__func__", f)
+        code = getattr(f, "__code__", None)
+        if not isinstance(f, types.FunctionType) or code is None:
+            return False
+        fn = code.co_filename
+        if not fn.endswith(".py") or os.sep + "psx" + os.sep in fn or not os.path.exists(fn):
+            return False
+        if id(f) not in self.allow:
+            self.allow[id(f)] = f
+            self._info.pop(id(code), None)
+        if self.func_info(f) is None:
+            return False
+        self.stats.on_demand.add("%s.%s" % (getattr(f, "__module__", "?"), getattr(f, "__qualname__", f.__name__)))
+        return True
 
     # ------------------------------------------------------------------------------------------
     # trampolines: make native callers of productmd functions re-enter the interpreter
